@@ -494,12 +494,12 @@ theorem decS_unset (mm : MMX) (o : Opts) (fi : FInfo) (slots : List (Str × Slot
   unfold decS effSlot
   cases hk : fi.kind with
   | attr =>
-    simp only [hl, List.append_nil, List.getLast?_nil]
+    simp only [hl, List.append_nil, List.getLast?_nil, unsetSlot, hk]
     cases hm : fi.many with
     | true => simp
     | false => cases fi.dflt <;> simp
   | ref =>
-    simp only [hl]
+    simp only [hl, unsetSlot, hk]
   | cont => rfl
   | skip => rfl
 
@@ -640,7 +640,7 @@ theorem lookup_of_mem_nodup {V : Type} (l : List (Str × V)) (hnd : (l.map (·.1
       simp only [this]
       exact ih hnd.2 ht
 
-theorem eff_filter_via (mm : MMX) (o : Opts) (kids : List (SNode Str)) (f : Str) :
+theorem eff_filter_via {ρ : Type} (mm : MMX) (o : Opts) (kids : List (SNode ρ)) (f : Str) :
     (kids.map (eff mm o false)).filter (fun k => k.via == f) = (kids.filter fun k => k.via == f).map (eff mm o false) := by
   induction kids with
   | nil => rfl
@@ -901,6 +901,10 @@ def SlotRefs {ρ : Type} (P : ρ → Prop) : SlotV ρ → Prop
   | .refN ts => ∀ t ∈ ts, P t
   | _ => True
 
+theorem SlotRefs_unset {ρ : Type} (P : ρ → Prop) (fi : FInfo) : SlotRefs P (unsetSlot fi : SlotV ρ) := by
+  unfold unsetSlot
+  cases fi.kind <;> cases fi.many <;> simp [SlotRefs] <;> cases fi.dflt <;> simp [SlotRefs]
+
 inductive AllRefs {ρ : Type} (P : ρ → Prop) : SNode ρ → Prop
   | mk (via : Str) (cls : Nat) (uuid : Str) (slots : List (Str × SlotV ρ)) (kids : List (SNode ρ))
       (hs : ∀ e ∈ slots, SlotRefs P e.2) (hk : ∀ k ∈ kids, AllRefs P k) : AllRefs P (.mk via cls uuid slots kids)
@@ -960,6 +964,10 @@ theorem lookup_map_slots {ρ σ : Type} (g : ρ → σ) (l : List (Str × SlotV 
     simp only [List.map_cons, List.lookup_cons]
     cases (f == k) <;> simp [ih]
 
+theorem mapSlotT_unset {ρ σ : Type} (g : ρ → σ) (fi : FInfo) : mapSlotT g (unsetSlot fi : SlotV ρ) = unsetSlot fi := by
+  unfold unsetSlot
+  cases fi.kind <;> cases fi.many <;> simp [mapSlotT] <;> cases fi.dflt <;> simp [mapSlotT]
+
 theorem effSlot_mapT {ρ σ : Type} (g : ρ → σ) (sd : Bool) (fi : FInfo) (slots : List (Str × SlotV ρ)) :
     effSlot sd fi (slots.map fun e => (e.1, mapSlotT g e.2)) = (effSlot sd fi slots).map fun e => (e.1, mapSlotT g e.2) := by
   unfold effSlot
@@ -967,11 +975,11 @@ theorem effSlot_mapT {ρ σ : Type} (g : ρ → σ) (sd : Bool) (fi : FInfo) (sl
   cases fi.kind with
   | attr =>
     cases slots.lookup fi.name with
-    | none => simp only [Option.map_none, Option.map_some]; cases fi.many <;> cases fi.dflt <;> simp [mapSlotT]
+    | none => simp only [Option.map_none, Option.map_some, mapSlotT_unset]
     | some s => cases s <;> simp [mapSlotT] <;> split <;> simp [mapSlotT]
   | ref =>
     cases slots.lookup fi.name with
-    | none => simp only [Option.map_none, Option.map_some]; cases fi.many <;> simp [mapSlotT]
+    | none => simp only [Option.map_none, Option.map_some, mapSlotT_unset]
     | some s => simp
   | cont => rfl
   | skip => rfl
@@ -1077,7 +1085,7 @@ theorem effSlot_refs {ρ : Type} (P : ρ → Prop) (sd : Bool) (fi : FInfo) (slo
     | none =>
       simp only [hl, Option.some.injEq] at h
       subst h
-      cases fi.many <;> cases fi.dflt <;> simp [SlotRefs]
+      exact SlotRefs_unset P fi
     | some s =>
       have hm := lookup_mem slots fi.name s hl
       have := hs _ hm
@@ -1092,7 +1100,7 @@ theorem effSlot_refs {ρ : Type} (P : ρ → Prop) (sd : Bool) (fi : FInfo) (slo
     | none =>
       simp only [hl, Option.some.injEq] at h
       subst h
-      cases fi.many <;> simp [SlotRefs]
+      exact SlotRefs_unset P fi
     | some s =>
       have hm := lookup_mem slots fi.name s hl
       have := hs _ hm
